@@ -54,6 +54,7 @@ func pathTable(c *Ctx, ts tableSpec) ([]string, []string, token.Pos) {
 	}
 	se := newSymExec(c, rel)
 	se.emitMode = true
+	se.tableMode = true
 	se.keepRaised = ts.raises
 	se.inlineAll = ts.inline
 	se.maxPaths = 20000
